@@ -238,6 +238,82 @@ def f(x: FLOAT[...], c: BOOL, alpha: float = 4.0):
     return y
 ''', ["x:F:2 c:B:"], [{}, {"alpha": -1.0}])
 
+P("subfunction_bool_literal_argument", '''
+@script()
+def cast_like(a: FLOAT[...], like: BOOL):
+    return op.CastLike(a, like)
+
+@script()
+def pick(c: BOOL, a: FLOAT[...], b: FLOAT[...]):
+    return op.Where(c, a, b)
+
+@script()
+def f(x: FLOAT[...]):
+    return cast_like(x, True), pick(False, x, 0.0 - x), pick(True, x, 2.0)
+''', ["x:F:3"])
+
+P("bool_attribute_forwarded_as_tensor_to_subfunction", '''
+@script()
+def pick(c: BOOL, a: FLOAT[...], b: FLOAT[...]):
+    return op.Where(c, a, b)
+
+@script()
+def f(x: FLOAT[...], flag: bool = True):
+    return pick(flag, x, 0.0 - x)
+''', ["x:F:3"], [{}, {"flag": False}])
+
+P("subfunction_int_and_float_literal_arguments_cast_like", '''
+@script()
+def like_of(a: FLOAT[...], like: INT64):
+    return op.CastLike(a, like)
+
+@script()
+def like_f(a: INT64[...], like: FLOAT):
+    return op.CastLike(a, like)
+
+@script()
+def f(x: FLOAT[...], n: INT64[...]):
+    return like_of(x, 3), like_f(n, 2.5)
+''', ["x:F:3 n:I:3"])
+
+P("same_named_subfunctions_in_two_domains", '''
+from onnxscript.values import Opset
+
+@script(Opset("vp.dom.a", 1), default_opset=op)
+def g(a: FLOAT[...]):
+    return a + a
+
+ga = g
+
+@script(Opset("vp.dom.b", 1), default_opset=op)
+def g(a: FLOAT[...]):
+    return a * a
+
+gb = g
+
+@script()
+def f(x: FLOAT[...]):
+    return ga(x) - gb(x)
+''', ["x:F:2"])
+
+P("subfunction_calling_same_named_function_of_another_domain", '''
+from onnxscript.values import Opset
+
+@script(Opset("vp.dom.a", 1), default_opset=op)
+def g(a: FLOAT[...]):
+    return a + 1.0
+
+inner = g
+
+@script(Opset("vp.dom.b", 1), default_opset=op)
+def g(a: FLOAT[...]):
+    return inner(a) * 2.0
+
+@script()
+def f(x: FLOAT[...]):
+    return g(x)
+''', ["x:F:2"])
+
 P("alias_of_outer_value_in_nested_if", '''
 @script()
 def f(x: FLOAT[...], c: BOOL, d: BOOL):
